@@ -233,6 +233,8 @@ def run(ctx):
     ctx.check(r_eq and all(q.return_value(r) == 1 for r in r_eq) and not t_eq, 'R19.2', S + 'sequence_check#eq.accept', f.loc,
               'seqnum = expected: returns true, throws nothing')
     enforce_gate_rule(ctx, prog, 'R19.2')
+    en = prog.fn1(S + 'enforce')
+    ecfg = en.cfg
 
     # ---------------- R19.3 provenance of the sequence number in process()
     pr = prog.fn1(S + 'process')
